@@ -1,4 +1,6 @@
 import ZV.Model.C04
+import ZV.Model.C04NC
+import ZV.Model.C22Any
 import ZV.Generated.C04
 /-! line protocol for C04:
       `c04 t <seed> <key> <signer> <alg> KU EKU UNK BC SKI AKI OCSP ISS DNS EMAIL IP POL NC CRLDP EXTRA`
@@ -87,6 +89,57 @@ def showFields (f : Fields) : String :=
     ++ " ocsp=" ++ showList "," (f.ocsp.map toHex) ++ " iss=" ++ showList "," (f.issuing.map toHex)
     ++ " crldp=" ++ showList "," (f.crldp.map toHex) ++ " pol=" ++ showList ";" (f.policies.map showOidBytes)
 
+/-! name constraints: `c04 nc <crit> PE PD PDIR PIP XE XD XDIR XIP` (lists `,`-separated `x<hex>`, IP ranges
+    `x<addr>/x<mask>`, `-` = empty) → `ok v=<x hex|-> crit= P e= d= u= x4= dir= ip= X …`;
+    `c04 ncp <crit> <hex>`: the parser arm alone on an arbitrary extension value → `ok crit= P … X …` | `err`. -/
+
+def xHex (s : String) : Option Bytes := if s.startsWith "x" then ofHex (String.ofList (s.toList.drop 1)) else none
+def xList (s : String) : Option (List Bytes) := (splitList "," s).mapM xHex
+def xPair (s : String) : Option (Bytes × Bytes) :=
+  match s.splitOn "/" with
+  | [a, m] => (match xHex a, xHex m with | some a, some m => some (a, m) | _, _ => none)
+  | _ => none
+def xPairs (s : String) : Option (List (Bytes × Bytes)) := (splitList "," s).mapM xPair
+
+def parseSide (e d dir ip : String) : Option NCSide :=
+  match xList e, xList d, xList dir, xPairs ip with
+  | some e, some d, some dir, some ip => some ⟨e, d, dir, ip⟩
+  | _, _, _, _ => none
+
+/-- `asn1.Unmarshal(Value.Bytes, &rawdn)` succeeds (trailing bytes are allowed): the C22 decoder -/
+def rdnOK (b : Bytes) : Bool := match ZV.C22.unmarshalAny b with | .ok _ => true | _ => false
+
+def xh (b : Bytes) : String := if b.isEmpty then "x" else "x" ++ toHex b
+def showST (p : Bytes × Int × Int) : String := xh p.1 ++ ":" ++ toString p.2.1 ++ ":" ++ toString p.2.2
+def showIP (p : Bytes × Bytes × Int × Int) : String :=
+  xh p.1 ++ "/" ++ xh p.2.1 ++ ":" ++ toString p.2.2.1 ++ ":" ++ toString p.2.2.2
+def showSide (s : NCOutSide) : String :=
+  "e=" ++ showList "," (s.email.map showST) ++ " d=" ++ showList "," (s.dns.map showST) ++ " u=" ++ showList "," (s.uri.map showST)
+    ++ " x4=" ++ toString s.x400 ++ " dir=" ++ showList "," (s.dir.map showST) ++ " ip=" ++ showList "," (s.ip.map showIP)
+
+def handleNC (args : List String) : String :=
+  match args with
+  | ["nc", crit, pe, pd, pdir, pip, xe, xd, xdir, xip] =>
+    (match parseBool01 crit, parseSide pe pd pdir pip, parseSide xe xd xdir xip with
+     | some c, some p, some x =>
+       let n : NCT := ⟨c, p, x⟩
+       if n.present then
+         (match parseNC rdnOK (buildNC n) with
+          | .ok (ps, xs) => "ok v=" ++ xh (buildNC n) ++ " crit=" ++ b01 c ++ " P " ++ showSide ps ++ " X " ++ showSide xs
+          | .err => "err"
+          | .panic => "panic")
+       else "ok v=- crit=0 P " ++ showSide {} ++ " X " ++ showSide {}
+     | _, _, _ => "bad-op")
+  | ["ncp", crit, v] =>
+    (match parseBool01 crit, ofHex v with
+     | some c, some v =>
+       (match parseNC rdnOK v with
+        | .ok (ps, xs) => "ok crit=" ++ b01 c ++ " P " ++ showSide ps ++ " X " ++ showSide xs
+        | .err => "err"
+        | .panic => "panic")
+     | _, _ => "bad-op")
+  | _ => "bad-op"
+
 def handle (args : List String) : String :=
   match args with
   | "t" :: _seed :: _key :: _signer :: _alg :: rest =>
@@ -101,6 +154,8 @@ def handle (args : List String) : String :=
          | .panic => "panic")
       | .err => "err"
       | .panic => "panic"
+  | "nc" :: _ => handleNC args
+  | "ncp" :: _ => handleNC args
   | _ => "bad-op"
 
 end ZV.C04
